@@ -236,7 +236,23 @@ func genC10(r *simrt.Rand, tier string, idx uint64) *Plan {
 		f.Kind = "killserver"
 	}
 	delay := []int{0, 0, 500, 1000}[r.Intn(4)]
-	p.Clients = append(p.Clients, ClientPlan{Conn: 0, Ops: []Op{{Kind: "spin", N: r.Intn(40)}, {Kind: "sleep", N: delay}, {Kind: "fault", Fault: &f}}})
+	if r.Chance(1, 2) {
+		// the fault follows a progress point of stream 0 at once: it lands while the reader on one
+		// end is on its way into (or back into) ReadMessage, not only when it has long been parked
+		nw0 := len(p.Streams[0].Sizes)
+		aw := Op{Kind: "await", Stream: 0, Shape: r.Intn(5)}
+		switch aw.Shape {
+		case 1:
+			aw.N = 1 + r.Intn(nw0+p.Streams[0].Push)
+		case 2:
+			aw.N = 1 + r.Intn(nw0)
+		case 3:
+			aw.N = 1 + r.Intn(nw0+p.Streams[0].Push)
+		}
+		p.Clients = append(p.Clients, ClientPlan{Conn: 0, Ops: []Op{aw, {Kind: "spin", N: r.Intn(6)}, {Kind: "fault", Fault: &f}}})
+	} else {
+		p.Clients = append(p.Clients, ClientPlan{Conn: 0, Ops: []Op{{Kind: "spin", N: r.Intn(40)}, {Kind: "sleep", N: delay}, {Kind: "fault", Fault: &f}}})
+	}
 	// streams that are being opened at the very moment of the fault
 	if f.Kind != "closestream" {
 		for c := 0; c < r.Intn(3); c++ {
